@@ -30,7 +30,7 @@ def main():
     head = sh("git -C /repo rev-parse HEAD")[1].strip()
     if not os.path.isdir(WT):
         sh(f"git -C /repo worktree add --detach {WT} {head}")
-    sh(f"git checkout -q -- . && git clean -fdq && git checkout -q --detach {head}", cwd=WT)
+    sh(f"git reset -q --hard && git clean -fdq && git checkout -q --detach {head}", cwd=WT)
     base_failed = open("/tmp/mut/baseline_failed.txt").read() if os.path.exists("/tmp/mut/baseline_failed.txt") else None
     summary = []
     for d in sorted(glob.glob(os.path.join(VERIF, "seeded", "*"))):
@@ -38,13 +38,14 @@ def main():
         if only and sid not in only:
             continue
         meta = json.load(open(os.path.join(d, "meta.json")))
-        sh("git checkout -q -- . && git clean -fdq", cwd=WT)
+        sh("git reset -q --hard && git clean -fdq", cwd=WT)
         rc, o = sh(f"git apply {d}/patch.diff", cwd=WT)
         how = "apply"
         if rc != 0:
             rc, o = sh(f"git apply -3 {d}/patch.diff", cwd=WT)
             how = "apply-3way"
         if rc != 0:
+            sh("git reset -q --hard && git clean -fdq", cwd=WT)
             summary.append((sid, "PATCH-DOES-NOT-APPLY", ""))
             print(sid, "PATCH-DOES-NOT-APPLY")
             continue
